@@ -70,6 +70,11 @@ Definition check_idset (ops obs : list sx) : verdict :=
 Definition check (c : sx) : verdict :=
   match c with
   | SList [SList [SList ops]; SList obs] => check_idset ops obs
+  (* (s i 1): the same calls made as the first thing in a fresh process (package-level state in its
+     initial condition); nothing changes for the model *)
+  | SList [SList [SInt s; SInt i; SInt _];
+           SList [SInt id; SInt svc; SInt inst; SInt backend; SBytes str;
+                  SInt parsed_ok; SInt parsed]]
   | SList [SList [SInt s; SInt i];
            SList [SInt id; SInt svc; SInt inst; SInt backend; SBytes str;
                   SInt parsed_ok; SInt parsed]] =>
